@@ -35,6 +35,10 @@ impl ConnectionHandler for GateHandler {
             Ok(1) => {}
             _ => return Ok((Vec::new(), None)), // probe connection (no id): not a job of the scenario
         }
+        if id[0] >= 200 {
+            // a fault of the service's own code: this connection's handler ends by panicking (Pool.tla: EnvCrash)
+            panic!("verif: connection handler {} panics", id[0]);
+        }
         let a = self.obs.active.fetch_add(1, Ordering::SeqCst) + 1;
         self.obs.max_active.fetch_max(a, Ordering::SeqCst);
         self.obs.started.lock().unwrap().push(id[0]);
@@ -141,6 +145,95 @@ pub fn scenario(initial: usize, max: usize, n: usize, gap_us: u64, idx: usize) -
     result.map(|_| json!({"initial": initial, "max": max, "n": n, "gap_us": gap_us, "max_active": obs.max_active.load(Ordering::SeqCst)}))
 }
 
+/// `panics` connections whose handler panics (one after the other, each seen closed by its client), then `max` connections that
+/// stay open: all of them must get into service although nothing else happens; afterwards listen() must drain and return.
+pub fn crash_scenario(initial: usize, max: usize, panics: usize, idx: usize) -> Result<serde_json::Value, String> {
+    let dir = tmpdir(&format!("poolcrash{}", idx));
+    let path = dir.join("s");
+    let addr = format!("unix:{}", path.display());
+    let obs: Arc<Obs> = Default::default();
+    let stop = Arc::new(AtomicBool::new(false));
+    let cfg = ListenConfig { initial_worker_threads: initial, max_worker_threads: max, idle_timeout: 0, stop_listening: Some(stop.clone()) };
+    let h = GateHandler { obs: obs.clone() };
+    let a2 = addr.clone();
+    let th = std::thread::spawn(move || varlink::listen(h, &a2, &cfg));
+    if !wait_listening(&addr, Duration::from_secs(5)) {
+        return Err("listen() did not start listening on its socket within 5 s".into());
+    }
+    let settle = Duration::from_secs(3);
+    let mut result: Result<(), String> = Ok(());
+    for k in 0..panics {
+        match UnixStream::connect(&path) {
+            Ok(mut s) => {
+                let _ = s.set_read_timeout(Some(Duration::from_secs(5)));
+                let _ = s.write_all(&[200 + k as u8]);
+                let mut b = [0u8; 8];
+                match s.read(&mut b) {
+                    Ok(0) => {}
+                    Err(ref e) if e.kind() == std::io::ErrorKind::ConnectionReset => {}
+                    other => {
+                        result = Err(format!("panicking connection {} was neither served nor closed within 5 s ({:?}): no worker took it", k + 1, other));
+                        break;
+                    }
+                }
+            }
+            Err(e) => {
+                result = Err(format!("connect failed: {}", e));
+                break;
+            }
+        }
+    }
+    // the unwinding threads get time to finish what they do on their way out
+    std::thread::sleep(Duration::from_millis(30));
+    let mut conns: Vec<UnixStream> = Vec::new();
+    if result.is_ok() {
+        for j in 0..max {
+            match UnixStream::connect(&path) {
+                Ok(mut s) => {
+                    let _ = s.write_all(&[j as u8 + 1]);
+                    conns.push(s);
+                }
+                Err(e) => {
+                    result = Err(format!("connect failed: {}", e));
+                    break;
+                }
+            }
+        }
+    }
+    if result.is_ok() {
+        let ok = wait_until(|| obs.active.load(Ordering::SeqCst) >= max, settle);
+        if !ok {
+            result = Err(format!("stranded after {} handler panic(s): {} connections open, max {}, nothing else in service, only {} in service after {:?} (initial {})",
+                panics, max, max, obs.active.load(Ordering::SeqCst), settle, initial));
+        }
+    }
+    if result.is_ok() && obs.max_active.load(Ordering::SeqCst) > max {
+        result = Err(format!("bound exceeded after handler panics: {} in service at once, max {}", obs.max_active.load(Ordering::SeqCst), max));
+    }
+    conns.clear();
+    stop.store(true, Ordering::SeqCst);
+    let joined = wait_until(|| th.is_finished(), Duration::from_secs(10));
+    if joined {
+        match th.join() {
+            Ok(Ok(())) => {}
+            Ok(Err(e)) => {
+                if result.is_ok() {
+                    result = Err(format!("listen() returned an error after the stop flag was set ({} handler panics earlier): {}", panics, e));
+                }
+            }
+            Err(_) => {
+                if result.is_ok() {
+                    result = Err(format!("listen() itself panicked while shutting down its pool ({} handler panic(s) earlier)", panics));
+                }
+            }
+        }
+    } else if result.is_ok() {
+        result = Err(format!("listen() did not return within 10 s after the stop flag was set and all clients closed ({} handler panic(s) earlier)", panics));
+    }
+    let _ = std::fs::remove_dir_all(&dir);
+    result.map(|_| json!({"initial": initial, "max": max, "panics": panics}))
+}
+
 pub fn run(args: &[String]) {
     let thorough = args.iter().any(|a| a == "--tier=thorough");
     let reps = if thorough { 6 } else { 2 };
@@ -152,6 +245,13 @@ pub fn run(args: &[String]) {
                     scen.push((initial, max, n, gap));
                 }
             }
+        }
+    }
+    // handler panics: (initial, max, number of panicking connections, marker)
+    const CRASH: u64 = u64::MAX;
+    for (initial, max) in [(1usize, 1usize), (1, 2), (2, 2), (1, 3), (2, 4)] {
+        for panics in 1..=(if thorough { 4usize } else { 2 }) {
+            scen.push((initial, max, panics, CRASH));
         }
     }
     let scen = Arc::new(scen);
@@ -167,6 +267,16 @@ pub fn run(args: &[String]) {
                 break; // enough evidence; a pool that never shuts down costs its full time-out per scenario
             }
             let (initial, max, n, gap) = scen[i];
+            if gap == CRASH {
+                match crash_scenario(initial, max, n, i) {
+                    Ok(_) => {
+                        oks.fetch_add(1, Ordering::SeqCst);
+                    }
+                    Err(d) => fails.lock().unwrap().push(json!({"fail": true, "case": i, "variant": format!("initial={} max={} handler-panics={}", initial, max, n),
+                        "detail": d, "sig": format!("handler-panic initial={} max={} panics={}", initial, max, n), "input": {"initial": initial, "max": max, "panics": n}})),
+                }
+                continue;
+            }
             match scenario(initial, max, n, gap, i) {
                 Ok(_) => {
                     oks.fetch_add(1, Ordering::SeqCst);
